@@ -44,6 +44,10 @@ def build_script(ulines, oplines, meta, discipline, rng):
             for x in rng.sample(obs, min(len(obs), rng.randint(0, 60))):
                 out.append((x, 'obs'))
     out += [(x, 'obs') for x in observation(meta)]
+    # the declarative from-scratch value (model/Spec.v) of every attribute of every item
+    for i in meta['items']:
+        for a in meta['attrs']:
+            out.append(('spec %d %d' % (i, a), 'obs'))
     out.append(('counters', 'obs'))
     return out
 
